@@ -310,3 +310,44 @@ def make_labdata(rng, d, names):
     if d == 'pack':
         return {'k': 'pack', 'fmt': rng.choice(['<I', '>I', '<Q', '<i']), 'val': v}
     return {'k': 'data', 'd': d, 'val': v}
+
+
+REG_SPELL = {8: ['s0', 'fp', 'x8', '8'], 2: ['sp', 'x2', '2'], 1: ['ra', 'x1', '1']}
+
+
+def constify(rng, items, p=0.25):
+    """replace some literal integers by named constants and some registers by register-alias constants
+    (documented: `W = s0`).  Definitions are inserted at random places (constants are resolved before use)."""
+    out = [dict(it) for it in items]
+    defs = []
+    n = 0
+    for it in out:
+        if it['k'] not in ('inst', 'pseudo', 'data', 'pack'):
+            continue
+        if it['k'] in ('data', 'pack'):
+            if 'i' in it['val'] and rng.random() < p:
+                name = 'K%d' % n
+                n += 1
+                defs.append({'k': 'const', 'name': name, 'value': it['val']['i'], 'text': rng.choice([str, hex])(it['val']['i']) if it['val']['i'] >= 0 else str(it['val']['i'])})
+                it['val'] = {'c': name}
+            continue
+        ops = []
+        for o in it['ops']:
+            if 'i' in o and rng.random() < p:
+                name = 'K%d' % n
+                n += 1
+                v = o['i']
+                defs.append({'k': 'const', 'name': name, 'value': v, 'text': (rng.choice([str, hex])(v) if v >= 0 else str(v))})
+                ops.append({'c': name})
+            elif 'r' in o and rng.random() < p * 0.6:
+                name = 'W%d' % n
+                n += 1
+                r = o['r']
+                defs.append({'k': 'const', 'name': name, 'value': r, 'text': rng.choice(REG_SPELL.get(r, ['x%d' % r, str(r), O.ABI[r]]))})
+                ops.append({'cr': name})
+            else:
+                ops.append(o)
+        it['ops'] = ops
+    for d in defs:
+        out.insert(rng.randrange(len(out) + 1) if rng.random() < 0.3 else 0, d)
+    return out
